@@ -169,7 +169,9 @@ def stores_into_arguments(fn, params, shared=()):
       if isinstance(x, ast.Assign):
         for t in x.targets:
           pairs.append((t, x.value, False))
-      elif isinstance(x, (ast.For, ast.comprehension)):
+      elif isinstance(x, ast.For):
+        # (variables of comprehensions live in their own scope: a name reused
+        # by a later statement-level loop is a different variable)
         pairs.append((x.target, x.iter, True))
       elif isinstance(x, ast.NamedExpr):
         pairs.append((x.target, x.value, False))
